@@ -134,7 +134,7 @@ func (o optimizer[V]) Optimize(ast parser2.AST) parser2.AST {
 	// evaluate const static function calls like sqrt(2)
 	if fc, ok := ast.(*parser2.FunctionCall); ok {
 		if ident, ok := fc.Func.(*parser2.Ident); ok {
-			if fu, ok := o.g.staticFunctions[ident.Name]; ok && fu.IsPure {
+			if fu, ok := o.g.staticFunctions[ident.Name]; ok && fu.IsPure && !ident.Local {
 				if fu.argsNumberNotMatching(len(fc.Args)) {
 					return ast
 				}
@@ -171,6 +171,14 @@ func (o optimizer[V]) Optimize(ast parser2.AST) parser2.AST {
 	if mc, ok := ast.(*parser2.MethodCall); ok {
 		if con, ok := mc.Value.(*parser2.Const[V]); ok {
 			if c, ok := o.allConst(mc.Args); ok {
+				if o.g.mapHandler != nil && o.g.mapHandler.IsMap(con.Value) {
+					// a closure stored in the map under this name is called instead of the method
+					if va, err := o.g.mapHandler.AccessMap(con.Value, mc.Name); err == nil {
+						if _, ok := o.g.ExtractFunction(va); ok {
+							return ast
+						}
+					}
+				}
 				if o.g.methodHandler != nil {
 					fu, err := o.g.methodHandler.GetMethod(con.Value, mc.Name)
 					if err != nil {
